@@ -115,3 +115,227 @@ Example C09_nonvacuous_loss :
   (mean_of_batch_losses 6 (3#1) 2 [1#1; 2#1; 3#1; 4#1; 5#1; 7#2] == batch_loss 6 (3#1) [1#1; 2#1; 3#1; 4#1; 5#1; 7#2])%Q
   /\ length [1#1; 2#1; 3#1; 4#1; 5#1; 7#2]%Q = 3 * 2.
 Proof. split; vm_compute; reflexivity. Qed.
+
+(* ================================================================================================
+   Round 3 extension: RNGMixin state machine, schedule of a whole reconstruct call with its rng
+   draws, count form of the partition clause, loss algebra for every batch size / arbitrary equal
+   batches / gradient components, reset_recon field by field, the float -> int glue as separate
+   functions (tied to the source by coq/gen_proofs/C09_Glue_GenProofs.v on every run).
+   ================================================================================================ *)
+From QV.model Require Import C09_Model_Ext.
+From QV.proof Require Import C09_Proofs_Ext.
+
+(* ---- rng bookkeeping (core/utils/rng.py) *)
+(* _reset_rng after ANY sequence of draws (numpy / torch), resets and device moves restores seed,
+   numpy generator and torch generator of a freshly seeded object; the seed may have been given
+   as an int, a Generator or a torch.Generator *)
+Theorem C09_rng_reset_restores :
+  forall (dev tok0 tok tok' : nat) (ops : list rop) (a : rng_arg) (s : Z),
+    seed_of_arg a = Some s -> no_set ops ->
+    rng_core (reset_rng tok' (run_rng tok ops (init_rng dev tok0 a))) = rng_core (init_rng dev tok0 (ArgInt s)).
+Proof. exact rng_reset_restores. Qed.
+Print Assumptions C09_rng_reset_restores.
+
+(* two runs from one seed consume the same draws: same generator, same stream, same position *)
+Theorem C09_rng_same_seed_same_draws :
+  forall (dev1 dev2 tok1 tok2 t1 t2 : nat) (a1 a2 : rng_arg) (s : Z) (ops : list rop),
+    seed_of_arg a1 = Some s -> seed_of_arg a2 = Some s ->
+    gen_of_arg t1 a1 = gen_of_arg t2 a2 -> no_set ops ->
+    draws_rng tok1 ops (init_rng dev1 t1 a1) = draws_rng tok2 ops (init_rng dev2 t2 a2).
+Proof. exact rng_same_seed_same_draws. Qed.
+Print Assumptions C09_rng_same_seed_same_draws.
+
+(* the same run after a reset consumes the draws of a fresh run *)
+Theorem C09_rng_reset_same_draws :
+  forall (dev tok0 tok tok' tok1 tok2 : nat) (pre ops : list rop) (s : Z),
+    no_set pre -> no_set ops ->
+    draws_rng tok1 ops (reset_rng tok' (run_rng tok pre (init_rng dev tok0 (ArgInt s))))
+    = draws_rng tok2 ops (init_rng dev tok0 (ArgInt s)).
+Proof. exact rng_reset_same_draws. Qed.
+Print Assumptions C09_rng_reset_same_draws.
+
+(* domain remark, as a theorem: with a Generator OBJECT as `rng`, reset gives back the initial
+   state exactly when nothing had been drawn from that generator before it was handed over *)
+Theorem C09_rng_reset_generator_iff_fresh :
+  forall (dev tok0 tok : nat) (e : Z) (h : list nat),
+    rng_core (reset_rng tok (init_rng dev tok0 (ArgGen e h))) = rng_core (init_rng dev tok0 (ArgGen e h)) <-> h = [].
+Proof. exact rng_reset_generator_iff_fresh. Qed.
+Print Assumptions C09_rng_reset_generator_iff_fresh.
+
+Theorem C09_rng_reset_none_id : forall tok st, r_seed st = None -> reset_rng tok st = st.
+Proof. exact rng_reset_none_id. Qed.
+Print Assumptions C09_rng_reset_none_id.
+
+Theorem C09_rng_to_device_spec :
+  forall dev st,
+    r_np (rng_to_device dev st) = r_np st /\ r_seed (rng_to_device dev st) = r_seed st /\
+    r_torch (rng_to_device dev st) = torch_of_seed (r_seed st) /\ r_dev (rng_to_device dev st) = dev.
+Proof. exact rng_to_device_spec. Qed.
+Print Assumptions C09_rng_to_device_spec.
+
+(* ---- one reconstruct call: split + every epoch + validation batches, all sizes, all modes *)
+Theorem C09_recon_schedule_correct :
+  forall (n : nat) (b : option nat) (ratio : float) (random shuffle : bool)
+         (perm0 : list nat) (pps : list (list nat)) (sc : sched),
+    1 <= bsz n b -> Permutation perm0 (seq 0 n) ->
+    recon_schedule n b ratio random shuffle perm0 pps = Some sc ->
+    index_perms (s_split sc) pps ->
+    (Permutation (train (s_split sc) ++ val (s_split sc)) (seq 0 n) /\ NoDup (train (s_split sc) ++ val (s_split sc))) /\
+    (forall ep, In ep (s_epochs sc) ->
+       Permutation (concat ep) (train (s_split sc)) /\ length ep = s_len sc /\
+       (forall i, i < n -> count_occ Nat.eq_dec (concat ep) i + count_occ Nat.eq_dec (concat (s_val sc)) i = 1)) /\
+    length (s_epochs sc) = length pps /\
+    length (s_val sc) = s_val_len sc.
+Proof. exact recon_schedule_correct. Qed.
+Print Assumptions C09_recon_schedule_correct.
+
+Theorem C09_every_pattern_once :
+  forall n b order s i,
+    1 <= b -> (Permutation (train s ++ val s) (seq 0 n) /\ NoDup (train s ++ val s)) ->
+    Permutation order (train s) -> i < n ->
+    count_occ Nat.eq_dec (concat (epoch b order)) i + count_occ Nat.eq_dec (val s) i = 1.
+Proof. exact every_pattern_once. Qed.
+Print Assumptions C09_every_pattern_once.
+
+Theorem C09_no_foreign_pattern :
+  forall n b order s i,
+    1 <= b -> (Permutation (train s ++ val s) (seq 0 n) /\ NoDup (train s ++ val s)) ->
+    Permutation order (train s) -> n <= i ->
+    count_occ Nat.eq_dec (concat (epoch b order)) i = 0 /\ count_occ Nat.eq_dec (val s) i = 0.
+Proof. exact no_foreign_pattern. Qed.
+Print Assumptions C09_no_foreign_pattern.
+
+(* split and rng consumption of a reconstruct call do not depend on the batch size, so
+   reconstruct(reset=True, batch_size=other) starts from and leaves the same generator state *)
+Theorem C09_schedule_draws_indep_batch :
+  forall n b1 b2 ratio random shuffle perm0 pps,
+    option_map s_draws (recon_schedule n b1 ratio random shuffle perm0 pps)
+    = option_map s_draws (recon_schedule n b2 ratio random shuffle perm0 pps) /\
+    option_map s_split (recon_schedule n b1 ratio random shuffle perm0 pps)
+    = option_map s_split (recon_schedule n b2 ratio random shuffle perm0 pps).
+Proof. exact schedule_draws_indep_batch. Qed.
+Print Assumptions C09_schedule_draws_indep_batch.
+
+Theorem C09_schedule_val :
+  forall b shuffle s pre pps,
+    1 <= b ->
+    concat (s_val (schedule_of_split b shuffle s pre pps)) = val s /\
+    length (s_val (schedule_of_split b shuffle s pre pps)) = s_val_len (schedule_of_split b shuffle s pre pps) /\
+    (s_val (schedule_of_split b shuffle s pre pps) = [] <-> has_validation s = false).
+Proof. exact schedule_val. Qed.
+Print Assumptions C09_schedule_val.
+
+Theorem C09_explicit_split_epochs :
+  forall tr va b order s,
+    split_explicit (Some tr) (Some va) = inr (Some s) -> 1 <= b -> Permutation order tr ->
+    train s = tr /\ val s = va /\ Permutation (concat (epoch b order)) tr /\ length (epoch b order) = batcher_len b s.
+Proof. exact explicit_split_epochs. Qed.
+Print Assumptions C09_explicit_split_epochs.
+
+(* the split written over the separate glue functions is the split of the base model *)
+Theorem C09_split_of_glue_eq :
+  forall n ratio random perm, split_of_glue n ratio random perm = split_of_ratio n ratio random perm.
+Proof. exact split_of_glue_eq. Qed.
+Print Assumptions C09_split_of_glue_eq.
+
+(* ---- loss algebra *)
+(* EVERY batch size (non-dividing, larger than the set): the size-weighted mean of the per-batch
+   losses is the full-batch loss *)
+Theorem C09_weighted_mean_eq_full :
+  forall (N : nat) (I : Q) (b : nat) (ls : list Q),
+    1 <= b -> 1 <= N -> (weighted_mean_of_batch_losses N I b ls == batch_loss N I ls)%Q.
+Proof. exact weighted_mean_eq_full. Qed.
+Print Assumptions C09_weighted_mean_eq_full.
+
+(* any family of batches of one common size (any order, e.g. the shuffled batches of an epoch) *)
+Theorem C09_mean_over_equal_batches :
+  forall (N : nat) (I : Q) (b : nat) (bs : list (list Q)),
+    1 <= b -> 1 <= N -> 1 <= length bs -> (forall c, In c bs -> length c = b) ->
+    (mean_over_batches N I bs == batch_loss N I (concat bs))%Q.
+Proof. exact mean_over_equal_batches. Qed.
+Print Assumptions C09_mean_over_equal_batches.
+
+(* every gradient component *)
+Theorem C09_batch_grad_mean_eq_full :
+  forall (N : nat) (I : Q) (b m : nat) (gs : list (list Q)) (j : nat),
+    1 <= b -> 1 <= m -> 1 <= N -> length gs = m * b ->
+    (mean_of_batch_grads N I b gs j == batch_grad N I gs j)%Q.
+Proof. exact batch_grad_mean_eq_full. Qed.
+Print Assumptions C09_batch_grad_mean_eq_full.
+
+(* a loss branch that is not divided by the batch fraction (error_estimate's "poisson" branch
+   before fixes/C09-poisson-loss-batch-fraction.diff) gives 1/m of the full value, so the
+   invariance statement fails for it *)
+Theorem C09_unscaled_mean_factor :
+  forall (I : Q) (b m : nat) (ls : list Q),
+    1 <= b -> 1 <= m -> length ls = m * b ->
+    (mean_of_unscaled_losses I b ls * qn m == unscaled_loss I ls)%Q.
+Proof. exact unscaled_mean_factor. Qed.
+Print Assumptions C09_unscaled_mean_factor.
+
+Theorem C09_unscaled_batch_mean_refuted : ~ unscaled_batch_mean_statement.
+Proof. exact unscaled_batch_mean_refuted. Qed.
+Print Assumptions C09_unscaled_batch_mean_refuted.
+
+Theorem C09_plain_mean_needs_divisor :
+  exists N I b ls, 1 <= b /\ 1 <= N /\ ~ (mean_of_batch_losses N I b ls == batch_loss N I ls)%Q.
+Proof. exact plain_mean_needs_divisor. Qed.
+Print Assumptions C09_plain_mean_needs_divisor.
+
+(* ---- reset_recon, field by field *)
+Theorem C09_reset_recon_restores :
+  forall (P O L S : Type) (c : cfg P O) (dev : nat) (sd : Z) (tok : nat)
+         (steps : list (fields P O L S -> fields P O L S)),
+    Forall keeps_seed steps ->
+    reset_recon c tok (fold_left (fun f s => s f) steps (fresh c dev sd)) = fresh c dev sd.
+Proof. exact reset_recon_restores. Qed.
+Print Assumptions C09_reset_recon_restores.
+
+Theorem C09_reset_recon_idempotent :
+  forall (P O L S : Type) (c : cfg P O) (tok tok' : nat) (f : fields P O L S),
+    r_seed (f_rng f) <> None -> reset_recon c tok' (reset_recon c tok f) = reset_recon c tok f.
+Proof. exact reset_recon_idempotent. Qed.
+Print Assumptions C09_reset_recon_idempotent.
+
+(* ---------------------------------------------------------------- non-vacuity (extension) *)
+Example C09_nonvacuous_rng :
+  let ops := [ONp 12; OTorch 3; OToDev 1; ONp 9; OReset; ONp 9] in
+  no_set ops /\
+  show_rng (run_rng 1 ops (init_rng 0 0 (ArgInt 4294967303)))
+  = (Some 4294967303, (0, 4294967303), [9], Some 7, [], 1)%Z /\
+  draws_rng 1 [ONp 9; ONp 9] (init_rng 0 0 (ArgInt 7)) = [DNp (SSeed 7) [] 9; DNp (SSeed 7) [9] 9].
+Proof. split; [repeat constructor | split; vm_compute; reflexivity]. Qed.
+
+Example C09_nonvacuous_schedule :
+  exists sc, recon_schedule 8 (Some 3) 0x1p-2%float true true [5; 2; 7; 0; 1; 3; 4; 6] [[5; 4; 3; 2; 1; 0]; [0; 2; 4; 1; 3; 5]] = Some sc
+    /\ val (s_split sc) = [5; 2] /\ train (s_split sc) = [0; 1; 3; 4; 6; 7]
+    /\ s_epochs sc = [[[7; 6; 4]; [3; 1; 0]]; [[0; 3; 6]; [1; 4; 7]]]
+    /\ s_val sc = [[5; 2]] /\ s_draws sc = [8; 6; 6] /\ s_len sc = 2 /\ s_val_len sc = 1.
+Proof. eexists. repeat split; vm_compute; reflexivity. Qed.
+
+Example C09_nonvacuous_weighted :
+  (weighted_mean_of_batch_losses 5 (2#1) 2 [1#1; 2#1; 3#1; 4#1; 11#2] == batch_loss 5 (2#1) [1#1; 2#1; 3#1; 4#1; 11#2])%Q
+  /\ ~ (mean_of_batch_losses 5 (2#1) 2 [1#1; 2#1; 3#1; 4#1; 11#2] == batch_loss 5 (2#1) [1#1; 2#1; 3#1; 4#1; 11#2])%Q.
+Proof. split; [vm_compute; reflexivity | intros H; vm_compute in H; discriminate H]. Qed.
+
+Example C09_nonvacuous_grad :
+  (mean_of_batch_grads 4 (1#1) 2 [[1#1; 5#1]; [2#1; 6#1]; [3#1; 7#1]; [4#1; 9#1]] 1
+   == batch_grad 4 (1#1) [[1#1; 5#1]; [2#1; 6#1]; [3#1; 7#1]; [4#1; 9#1]] 1)%Q
+  /\ (batch_grad 4 (1#1) [[1#1; 5#1]; [2#1; 6#1]; [3#1; 7#1]; [4#1; 9#1]] 1 == 27#1)%Q.
+Proof. split; vm_compute; reflexivity. Qed.
+
+(* an iteration that changes every field (but keeps the seed) is undone by reset_recon *)
+Example C09_nonvacuous_reset_fields :
+  let c := {| c_obj0 := 1%Z; c_probe0 := 2%Z; c_dset0 := 3%Z; c_prop := Z.add; c_opt0 := 0%Z; c_constraints0 := 0 |} in
+  let step (f : fields Z Z Z Z) :=
+      {| f_rng := draw_torch 4 (draw_np 12 (f_rng f)); f_obj := (f_obj f + 1)%Z; f_probe := (f_probe f * 2)%Z; f_dset := 0%Z;
+         f_propagators := 9%Z; f_obj_constraints := 5; f_opt := (f_opt f + 1)%Z;
+         f_iter_losses := f_iter_losses f ++ [7%Z]; f_iter_val_losses := f_iter_val_losses f ++ [8%Z];
+         f_iter_recon_types := 1 :: f_iter_recon_types f; f_iter_lrs := [(0, [])]; f_snapshots := [1%Z] |} in
+  keeps_seed step /\
+  fold_left (fun f s => s f) [step; step] (fresh c 0 42) <> fresh c 0 42 /\
+  reset_recon c 5 (fold_left (fun f s => s f) [step; step] (fresh c 0 42)) = fresh c 0 42.
+Proof.
+  cbv zeta. split; [intros f; split; reflexivity|]. split; [|vm_compute; reflexivity].
+  intros H. apply (f_equal (@f_obj _ _ _ _)) in H. vm_compute in H. discriminate H.
+Qed.
